@@ -193,4 +193,65 @@ func checkC19(c *Ctx) {
 		[]ValAssume{{Name: "h.length", Match: fieldRead("length"), Val: latInt(4)}}, true)
 	c.evalAcceptRule(p, "C19.encode", "sumvec: wrong measurement length rejected", p.Func("vdaf/prio3/sumvec", "flpSumVec", "Encode"), map[string]lat{"measurement": latSliceLen(3)},
 		[]ValAssume{{Name: "s.length", Match: fieldRead("length"), Val: latInt(4)}}, false)
+	// FLP decision: accepts only if the circuit output is zero AND the gadget test holds (each alone must
+	// suffice to reject), for every instantiation of the generic proof system
+	{
+		var fs []*ssa.Function
+		for f := range p.AllFuncs {
+			if f.Blocks != nil && funcPkgPath(f) == circlPath+"/vdaf/prio3/internal/flp" && len(f.TypeArgs()) > 0 && strings.HasPrefix(f.Name(), "Decide") {
+				fs = append(fs, f)
+			}
+		}
+		sort.Slice(fs, func(i, j int) bool { return fs[i].String() < fs[j].String() })
+		if len(fs) < 3 {
+			c.undecided("C19.prep", "instantiations of FLP.Decide", fmt.Sprintf("only %d found (floor 3)", len(fs)), "")
+		}
+		for _, f := range fs {
+			c.guard(p, "C19.prep", "rejects when the circuit output is not zero", f, GuardSpec{Assumes: []Assume{{Name: "v.IsZero()", Result: -1, Val: latFalse, Match: func(_ ssa.CallInstruction, callee string, in *ssa.Function) bool {
+				return in == f && strings.HasSuffix(callee, ".IsZero")
+			}}}})
+			c.guard(p, "C19.prep", "rejects when the gadget test fails", f, GuardSpec{Assumes: []Assume{{Name: "check.IsEqual(gadgetCheck)", Result: -1, Val: latFalse, Match: func(_ ssa.CallInstruction, callee string, in *ssa.Function) bool {
+				return in == f && strings.HasSuffix(callee, ".IsEqual")
+			}}}})
+		}
+	}
+	// collecting the result does not consume its inputs: Unshard may be called again (or by another collector)
+	// with the same aggregate shares, so it must not accumulate into one of them
+	{
+		var fs []*ssa.Function
+		for f := range p.AllFuncs {
+			if f.Blocks != nil && f.Synthetic == "" && f.Name() == "Unshard" && strings.HasPrefix(funcPkgPath(f), circlPath+"/vdaf/prio3/") && f.Signature.Recv() != nil {
+				fs = append(fs, f)
+			}
+		}
+		sort.Slice(fs, func(i, j int) bool { return fs[i].String() < fs[j].String() })
+		if len(fs) < 5 {
+			c.undecided("C19.prep", "Unshard implementations", fmt.Sprintf("only %d found (floor 5)", len(fs)), "")
+		}
+		seen := map[string]bool{}
+		for _, f := range fs {
+			construct := fname(f) + ": the aggregate shares handed to Unshard are not written"
+			if seen[construct] {
+				continue
+			}
+			seen[construct] = true
+			var bad []string
+			for _, w := range p.Mod().of(f) {
+				var i int
+				if _, err := fmt.Sscanf(w.Root, "param#%d", &i); err == nil && i >= 1 && i < len(f.Params) {
+					bad = append(bad, fmt.Sprintf("%s written at %s (%s)", f.Params[i].Name(), p.pos(w.Pos), w.Via))
+				}
+			}
+			if len(bad) > 0 {
+				sort.Strings(bad)
+				if len(bad) > 3 {
+					bad = bad[:3]
+				}
+				c.bad("C19.prep", construct, strings.Join(bad, "; "), p.fnPos(f))
+			} else {
+				c.ok("C19.prep", construct, "mod-set contains no non-receiver parameter", p.fnPos(f))
+			}
+		}
+	}
+
 }
